@@ -631,3 +631,36 @@ func wireKeyOwnership(p *Prog, r *Report, w *Wire, clause, name string, allowedC
 	}
 	r.Floor("uses-of-keys["+name+"]", n, 1)
 }
+
+// checkInitGenesisCallers: the module's genesis import (which stores entries without any authorization) is called by the module's
+// own AppModule.InitGenesis only — not by upgrade handlers, migrations or other keepers.
+func checkInitGenesisCallers(p *Prog, r *Report, clause, mod string) {
+	kp := func(rule, rest string) string { return rule + ":" + clause + ":" + rest }
+	ig := p.Func(Rel(mod), "InitGenesis")
+	if ig == nil {
+		r.Fail(kp("WMC", mod+".InitGenesis#anchor"), "anchor", mod, "InitGenesis not found")
+		return
+	}
+	callers, uses := p.CallersOf(ig)
+	n := 0
+	for _, c := range callers {
+		n++
+		ok := pkgPathOf(c) == Rel(mod) && c.Name() == "InitGenesis" && c.Signature.Recv() != nil
+		key := kp("WMC", mod+".InitGenesis<-"+FuncName(c))
+		switch {
+		case ok:
+			r.OK(key, "the genesis import is called by the module's own AppModule.InitGenesis only", p.FnPos(c), FuncName(c))
+		case InPkgs(c, "types/testsuite"):
+			r.OKTrivial(key, "test-support package", p.FnPos(c), "types/testsuite")
+		default:
+			r.Fail(key, "the genesis import is called by the module's own AppModule.InitGenesis only", p.FnPos(c),
+				FuncName(c)+" runs "+mod+"'s genesis import: it overwrites entries (tombstones, counters, owners) without any of the handlers' checks")
+		}
+	}
+	for _, u := range uses {
+		if u.Kind == "ref" {
+			r.Fail(kp("WMC", mod+".InitGenesis#value-use@"+FuncName(u.In)), "the genesis import is not passed around as a value", p.Pos(u.Instr.Pos()), "InitGenesis is referenced as a value in "+FuncName(u.In))
+		}
+	}
+	r.Floor("callers-of-"+mod+".InitGenesis", n, 1)
+}
